@@ -38,6 +38,11 @@ def gen_case(seed, n):
         # (unsupported Expect -> 417): its response is ready long before the earlier ones finish
         q["expect417"] = (i >= 1 and q["method"] == "GET" and r.random() < 0.12)
         reqs.append(q)
+    # interim (1xx) responses triggered by LATER requests while an earlier response is still being relayed: drawn from a
+    # separate stream so that the cases of earlier runs keep their shape
+    r1 = random.Random(f"C05:1xx:{seed}:{n}")
+    for i, q in enumerate(reqs):
+        q["expect100"] = (q["method"] == "POST" and r1.random() < 0.5)
     if "dupurl" in AVOID:
         for i, q in enumerate(reqs):
             q["u"] = i
@@ -53,6 +58,11 @@ def gen_case(seed, n):
         u["delay_before"] = r.choice([0, 0, 0.01, 0.05, 0.15, 0.3]) * (k - i) / k
         u["trickle"] = r.random() < 0.25
         urls.append(u)
+    for i, u in enumerate(urls):
+        u["early_hints"] = r1.random() < 0.15
+        if i + 1 < k and r1.random() < 0.3 and reqs[i]["u"] == i and u["status"] == 200 and u["framing"] != "none":
+            # a slow, long earlier response: headers at once, body in pieces over a few hundred ms
+            u["len"], u["trickle"], u["slow"], u["delay_before"] = r1.choice([3000, 20000, 70000]), True, True, 0
     c["urls"] = urls
     c["nsplits"] = r.choice([0, 0, 1, 2, 5])
     c["delay"] = r.choice([0, 0.001, 0.01, 0.03])
@@ -84,10 +94,22 @@ def run(a, res):
             resp.chunks = [max(1, len(body) // 3 + 1)]
         if u["trickle"] and len(body) > 1000:
             resp.splits = [len(body) // 3, 2 * len(body) // 3]
-            resp.delay = 0.03
+            resp.delay = 0.15 if u.get("slow") else 0.03
+        if u.get("early_hints"):
+            resp.interim = [b"HTTP/1.1 103 Early Hints\r\nLink: </c05-hint.css>; rel=preload\r\n\r\n"]
+            res.count("origin_sent_103")
         with lock:
             rids[rid] = (path, body, req.method)
         return resp
+
+    def before_body(req):
+        exp = httpref.get(req.headers, "Expect")
+        if exp and exp.lower() == "100-continue":
+            res.count("origin_sent_100")
+            return b"HTTP/1.1 100 Continue\r\n\r\n"
+        return None
+
+    handler.before_body = before_body
 
     def pipeline_bytes(lab, c, attempt):
         out = b""
@@ -113,6 +135,8 @@ def run(a, res):
                     hs.append(("Content-Length", str(len(body))))
             if q.get("expect417"):
                 hs.append(("Expect", "verif-unsupported-expectation"))
+            if q.get("expect100") and q["method"] == "POST":
+                hs.append(("Expect", "100-continue"))
             if i == len(c["reqs"]) - 1 and c["last_close"]:
                 hs.append(("Connection", "close"))
             head = f"{q['method']} {url} HTTP/1.1\r\n" + "".join(f"{k}: {v}\r\n" for k, v in hs) + "\r\n"
@@ -241,6 +265,7 @@ def run(a, res):
             info = info + ("; " + " | ".join(waiting) if waiting else "; origin is not waiting for any request body")
         conn.close()
         th.join(timeout=5)
+        res.count("interim_responses_seen_by_client", len(conn.interim))
         res.count("responses_in_order", len(got))
         # evidence that completion order at the origin differed from request order (what makes ordering non-trivial)
         done = []
